@@ -675,6 +675,25 @@ func runInventoryCmd(args []string) {
 					}
 				}
 				metricsOnly := telemetryClockReads(fd.Body)
+				// v, ok := x.(T) reports a mismatch in ok and cannot panic
+				commaOk := map[token.Pos]bool{}
+				ast.Inspect(fd.Body, func(n ast.Node) bool {
+					switch y := n.(type) {
+					case *ast.AssignStmt:
+						if len(y.Lhs) == 2 && len(y.Rhs) == 1 {
+							if ta, ok := y.Rhs[0].(*ast.TypeAssertExpr); ok {
+								commaOk[ta.Pos()] = true
+							}
+						}
+					case *ast.ValueSpec:
+						if len(y.Names) == 2 && len(y.Values) == 1 {
+							if ta, ok := y.Values[0].(*ast.TypeAssertExpr); ok {
+								commaOk[ta.Pos()] = true
+							}
+						}
+					}
+					return true
+				})
 				ast.Inspect(fd.Body, func(n ast.Node) bool {
 					switch x := n.(type) {
 					case *ast.CallExpr:
@@ -751,7 +770,7 @@ func runInventoryCmd(args []string) {
 						}
 					case *ast.TypeAssertExpr:
 						// x.(type), the guard of a type switch, selects a case and cannot panic
-						if x.Type != nil {
+						if x.Type != nil && !commaOk[x.Pos()] {
 							add(&panicSites, "assert", x)
 						}
 					case *ast.RangeStmt:
